@@ -22,6 +22,7 @@ int main(int argc, char* argv[])
   args.support("level");
   args.support("space");
   args.support("solve");
+  args.support("splitter");
   auto unsupported = args.query_unsupported();
   if(!unsupported.empty() || args.check("mesh") < 1 || args.check("level") < 1)
   {
